@@ -11,6 +11,7 @@ extern "C" {
 #define SCH_ALLOC 3
 #define SCH_RDLOCK 4
 #define SCH_WRLOCK 5
+#define SCH_UNLOCK 6
 void sch_reset(int nthreads, const int* prefix, int prefix_len);
 void sch_thread_begin(int tid);
 void sch_op_begin(int opidx, int first);
